@@ -947,7 +947,33 @@ impl Property for C06 {
     fn execute(&self, sc: &Sc, ctx: &mut Ctx) -> Outcome {
         if sc.fresh_thread {
             ctx.fault("fresh_thread");
-            return crate::framework::in_fresh_thread(|| execute_run(sc, ctx));
+            // ... and while that thread exits, from the destructor of one of its thread-locals,
+            // one more question is asked: a tie between different names, in both orders
+            let (out, at_exit) = crate::framework::in_fresh_thread_with_exit(
+                || execute_run(sc, ctx),
+                || {
+                    let p = Pattern::new("*-[0-9]*").ok()?;
+                    let a = p.best_match("foo-1.0", "bar-1.0.0").map(|s| s.to_string());
+                    let b = p.best_match("bar-1.0.0", "foo-1.0").map(|s| s.to_string());
+                    let c = p.best_match("foo-1.0", "foo-1.0nb0").map(|s| s.to_string());
+                    let d = p.best_match("foo-1.0nb0", "foo-1.0").map(|s| s.to_string());
+                    Some((a, b, c, d))
+                },
+            );
+            out?;
+            if let Some(Some((a, b, c, d))) = at_exit {
+                ctx.probe("asked-while-the-thread-exits");
+                ensure!(
+                    a.as_deref() == Some("bar-1.0.0") && b.as_deref() == Some("bar-1.0.0") && c.as_deref() == Some("foo-1.0") && d.as_deref() == Some("foo-1.0"),
+                    "argument-order-dependent",
+                    "asked from a thread-local destructor while the thread exits: best_match(foo-1.0, bar-1.0.0) = {:?}, swapped {:?}; best_match(foo-1.0, foo-1.0nb0) = {:?}, swapped {:?}; ties go to the byte-wise smaller name in both orders",
+                    a,
+                    b,
+                    c,
+                    d
+                );
+            }
+            return Ok(());
         }
         execute_run(sc, ctx)
     }
